@@ -879,4 +879,67 @@ theorem C02_face_order (tol eps : K) (o n : V3 K) (pf₁ pf₂ : List (PFace K))
   exact ((h.filter _).flatMap_right _).append ((h.filter _).flatMap_right _) |>.append
     ((h.filter _).flatMap_right _)
 
+
+/-! ### complementarity with the flipped plane -/
+
+/-- the fraction of a face's area vector that the kernel keeps (explicitly, by kind) -/
+def lamOf (tol eps : K) (o n : V3 K) (p : T3 (V3 K)) (sel : Bool) : K :=
+  match classifyFace (p.map fun v => vsign tol (offset o n v)) sel with
+  | .keep => 1
+  | .drop => 0
+  | .quad k =>
+    edgeParam eps o n (p.get (k + 2)) (p.get k) +
+      (1 - edgeParam eps o n (p.get (k + 2)) (p.get k)) * (1 - edgeParam eps o n (p.get k) (p.get (k + 1)))
+  | .tri k =>
+    edgeParam eps o n (p.get k) (p.get (k + 1)) * (1 - edgeParam eps o n (p.get (k + 2)) (p.get k))
+
+def vsum (l : List (V3 K)) : V3 K := l.foldr (· + ·) V3.zero
+
+/-- the area vectors of the output triangles add up to `lamOf` times the face's area vector; every summand is a
+    non-negative multiple (C01_orientation), so the *areas* add up to `lamOf` times the face's area. -/
+theorem lamOf_is_area_fraction (tol eps : K) (o n : V3 K) (p : T3 (V3 K)) (sel : Bool) :
+    vsum ((sliceFacePos tol eps o n p sel).map PW.C01.crossOf) =
+      V3.smul (lamOf tol eps o n p sel) (PW.C01.crossOf p) := by
+  unfold lamOf sliceFacePos
+  simp only
+  generalize classifyFace (p.map fun v => vsign tol (offset o n v)) sel = kind
+  cases kind with
+  | keep =>
+    simp only [List.map_cons, List.map_nil, vsum, List.foldr]
+    ext <;> simp
+  | drop =>
+    simp only [List.map_nil, vsum, List.foldr]
+    ext <;> simp
+  | quad k =>
+    have e2 : (intPoints eps o n p).get (k + 2) =
+        V3.smul (edgeParam eps o n (p.get (k + 2)) (p.get k)) (p.get k - p.get (k + 2)) + p.get (k + 2) := by
+      rw [intPoints_get, show k + 2 + 1 = k + 3 from rfl, PW.C01.T3.get_add_three, edgePoint_eq]
+    have e0 : (intPoints eps o n p).get k =
+        V3.smul (edgeParam eps o n (p.get k) (p.get (k + 1))) (p.get (k + 1) - p.get k) + p.get k := by
+      rw [intPoints_get, edgePoint_eq]
+    simp only [List.map_cons, List.map_nil, vsum, List.foldr]
+    rw [e2, e0, PW.C01.cross_quad_piece1, PW.C01.cross_quad_piece2, PW.C01.crossOf_rot]
+    ext <;> simp <;> ring
+  | tri k =>
+    have e2 : (intPoints eps o n p).get (k + 2) =
+        V3.smul (edgeParam eps o n (p.get (k + 2)) (p.get k)) (p.get k - p.get (k + 2)) + p.get (k + 2) := by
+      rw [intPoints_get, show k + 2 + 1 = k + 3 from rfl, PW.C01.T3.get_add_three, edgePoint_eq]
+    have e0 : (intPoints eps o n p).get k =
+        V3.smul (edgeParam eps o n (p.get k) (p.get (k + 1))) (p.get (k + 1) - p.get k) + p.get k := by
+      rw [intPoints_get, edgePoint_eq]
+    simp only [List.map_cons, List.map_nil, vsum, List.foldr]
+    rw [e2, e0, PW.C01.cross_tri_piece, PW.C01.crossOf_rot]
+    ext <;> simp
+
+theorem offset_neg (o n v : V3 K) : offset o (-n) v = - offset o n v := by
+  simp only [offset, V3.dot_def, V3.neg_x, V3.neg_y, V3.neg_z, V3.sub_x, V3.sub_y, V3.sub_z]; ring
+
+/-- the edge parameter does not change when the plane is flipped (endpoints with different offsets) -/
+theorem edgeParam_flip (eps : K) (o n a b : V3 K) (h : offset o n a ≠ offset o n b) :
+    edgeParam eps o (-n) a b = edgeParam eps o n a b := by
+  rw [edgeParam_of_ne eps o n a b h, edgeParam_of_ne eps o (-n) a b (by rw [offset_neg, offset_neg]; intro h'; exact h (neg_injective h'))]
+  rw [offset_neg, offset_neg]
+  congr 1
+  rw [← neg_sub', neg_div_neg_eq]
+
 end PW.C02
